@@ -9,7 +9,7 @@ from ..interp import Pins, find_nodes, unparse
 from ..model import AnalysisError
 from .util import enclosing_loop, enclosing_stmt, every_iteration_reaches, fmt, is_const, loop_targets_with_origin, parent, returns_of, same, self_attr_for_param, single_def, inline_result_names
 
-P = ("C08", "C01", "C06")
+P = ("C08", "C01", "C06", "C02")
 CLS = "cleanup:CleanupTranslator"
 
 
